@@ -1,1 +1,22 @@
-CLAIMED = {}
+"""Claimed properties: level text, trusted base, technique, DESIGN section."""
+CLAIMED = {
+    "C19": {
+        "text": "ConfigStore.tla specifies the store as a last-writer-wins tree with canonical keys, "
+                "accumulated defaults, config-file overlay and with-block undo frames; TLC checks "
+                "LastWriterWins, SiblingsKept, RefreshRestores, DefaultsRespectUser and WithRestores "
+                "on the bounded instance (ConfigMC) and rejects three wrong variants. TLC then "
+                "generates operation scripts (exhaustive to depth 2/3, simulated 30-step walks) which "
+                "are executed on the real config functions; every recorded execution (arguments, "
+                "raised flag, full observed configuration and get() results after each call) is "
+                "validated against the specification by TLC (ConfigTrace.tla). Bounded model "
+                "checking plus trace validation is the right level: the property is about every "
+                "history of a small sequential state machine.",
+        "note": "Trusted: TLC, the JSON trace codec, the driver's mapping from script actions to "
+                "public calls (private config/defaults passed through the public parameters). Key "
+                "kinds are type-consistent across writers; CUDA/MPS unavailable so device requests "
+                "are exercised for rejection only.",
+        "technique": "TLA+ spec + TLC model checking; TLC-generated scripts executed on the code; "
+                     "recorded traces validated against the spec with TLC",
+        "design_ref": "DESIGN.md section 4 (C19)",
+    },
+}
